@@ -222,6 +222,20 @@ claim("C16", "model_checking",
       "TLA+ spec + TLC model checking; replay of TLC behaviours against the real HTTP proxy forwarder under a virtual clock",
       "DESIGN.md 4/C16", "forwarder")
 
+claim("C17", "model_checking",
+      "specs/Dns/Resolver.tla has one action per blocking point of dns/dns.go (Lookup with cache promotion and expiry, UdpRecv with source check / "
+      "parse / truncation, UdpTimeout, TcpDial, TcpRecv, TcpEof, TcpCut, TcpTimeout, Cancel, Advance), Parse mirroring parseMsg check by check, "
+      "29 upstream message kinds; specs/Dns/Lru.tla follows cache/cache.go's pointer code. TLC checks OnlyOwnAnswers/TtlHonoured/ExpiryIsMinimum/"
+      "FallbackOrder/FailureMeansFailure/StaleOnlyOnFailure/NoPoisoning/LruConsistent; the resolver's unexported durations and its two expiry "
+      "rules are measured on the compiled code. TCP-only resolvers are replayed inside testing/synctest with a fake StreamClient (exact TTL "
+      "histories), resolvers with UDP in real time against loopback upstreams (wrong-port and wrong-address sockets for the source check); the "
+      "real cache is compared in list order after every step; the complete Lru graph is replayed on a real BoundedCache; mutated and random "
+      "bytes go through the parser.",
+      "Whole-second time grid; UDP replays run in real time and never assert on elapsed time (under extreme load a model hit that is a real miss "
+      "is a note); A/AAAA records only in answers of their own type; two concurrent callers are replayed over TCP only.",
+      "TLA+ spec + TLC model checking; replay under a virtual clock (TCP) and over loopback sockets (UDP) against the real resolver and cache",
+      "DESIGN.md 4/C17", "resolver")
+
 NA = {}
 
 def main():
